@@ -126,15 +126,6 @@ Definition row_ok (p : param) : bool :=
 
 (* ---------------- comparison with an observed implementation outcome ---------------- *)
 
-Definition outcome_eqb (a b : outcome) : bool :=
-  match a, b with
-  | Accept x, Accept y => Qeq_bool x y
-  | Reject n, Reject m => String.eqb n m
-  | Unchanged, Unchanged => true
-  | Crash, Crash => true
-  | _, _ => false
-  end.
-
 (* one reader-level case: row index, parsed value, observed outcome, observed final value, observed Provided *)
 Definition rcase : Type := (nat * Q * outcome * option Q * bool)%type.
 
@@ -144,14 +135,19 @@ Definition oQ_eqb (a b : option Q) : bool :=
 Definition dummy_param : param :=
   mkParam "" "" KStr None None 0 0 [] "" "" "" false "" "".
 
-(* model agrees with the implementation on outcome, value in use afterwards and Provided *)
+(* model agrees with the implementation on the observables: raises naming the same parameter, or ends with the
+   same value in use (Accept / Unchanged are told apart only through that value; Provided is not compared:
+   it is bookkeeping that C07 does not constrain) *)
 Definition rcase_agrees (tbl : list param) (c : rcase) : bool :=
   match c with
-  | (i, v, o, fin, prov) =>
+  | (i, v, o, fin, _) =>
       let p := nth i tbl dummy_param in
       let m := read_param p v in
-      outcome_eqb m o
-      && match o with Reject _ | Crash => true | _ => oQ_eqb (final p m) fin && Bool.eqb (provided_after p v) prov end
+      match m, o with
+      | Reject n, Reject n' => String.eqb n n'
+      | (Accept _ | Unchanged), (Accept _ | Unchanged) => oQ_eqb (final p m) fin
+      | _, _ => false
+      end
   end.
 
 (* the property holds of the IMPLEMENTATION's outcome (evaluated with the observed final value) *)
